@@ -138,16 +138,51 @@ func (n *node[K, V]) get(key K, d int) (*node[K, V], error) {
 	if len(key) == 0 {
 		return nil, fmt.Errorf("key for the get() method should not be empty")
 	}
-	c := key[d]
 
-	if c < n.c {
-		return n.left.get(key, d)
-	} else if c > n.c {
-		return n.right.get(key, d)
-	} else if d < len(key)-1 {
-		return n.mid.get(key, d+1)
+	{
+		var inl1_v0 *node[K, V]
+	inl1done:
+		switch {
+		default:
+			var n *node[K, V] = n
+			_ = n
+			var key K = key
+			_ = key
+			var d int = d
+			_ = d
+			var visit func(x *node[K, V], depth int) = nil
+			_ = visit
+			for n != nil {
+				c := key[d]
+
+				if c < n.c {
+					n = n.left
+				} else if c > n.c {
+					n = n.right
+				} else if d < len(key)-1 {
+					d++
+					if visit != nil {
+						visit(n, d)
+					}
+					n = n.mid
+				} else {
+					{
+						inl1_v0 = n
+						break inl1done
+					}
+				}
+			}
+			{
+				inl1_v0 = nil
+				break inl1done
+			}
+		}
+		x := inl1_v0
+		if x != nil {
+			return x, nil
+		}
 	}
-	return n, nil
+	return nil, ErrorNotFound
 }
 
 // LongestPrefix returns the longest prefix of query in the symbol table or empty if such string does not exist.
@@ -160,31 +195,50 @@ func (t *Trie[K, V]) LongestPrefix(query K) (K, error) {
 		return k, fmt.Errorf("query for the LongestPrefix() method should not be empty")
 	}
 
-	var inl2_v0 int
-	{
-		var x *node[K, V] = t.root
-		_ = x
-		var query K = query
-		_ = query
-		length := 0
-		i := 0
-		for x != nil && i < len(query) {
-			c := query[i]
-			if c < x.c {
-				x = x.left
-			} else if c > x.c {
-				x = x.right
-			} else {
-				i++
-				if x.isValid {
-					length = i
-				}
-				x = x.mid
+	length := 0
+	var inl2_v0 *node[K, V]
+inl2done:
+	switch {
+	default:
+		var n *node[K, V] = t.root
+		_ = n
+		var key K = query
+		_ = key
+		var d int = 0
+		_ = d
+		var visit func(x *node[K, V], depth int) = func(x *node[K, V], depth int) {
+			if x.isValid {
+				length = depth
 			}
 		}
-		inl2_v0 = length
+		_ = visit
+		for n != nil {
+			c := key[d]
+
+			if c < n.c {
+				n = n.left
+			} else if c > n.c {
+				n = n.right
+			} else if d < len(key)-1 {
+				d++
+				if visit != nil {
+					visit(n, d)
+				}
+				n = n.mid
+			} else {
+				{
+					inl2_v0 = n
+					break inl2done
+				}
+			}
+		}
+		{
+			inl2_v0 = nil
+			break inl2done
+		}
 	}
-	return query[:inl2_v0], nil
+	_ = inl2_v0
+	return query[:length], nil
 }
 
 // StartsWith returns all the keys in the set that start with prefix.
